@@ -231,7 +231,15 @@ func (m *Monitor) reachable() map[int]bool {
 		switch ref.Kind {
 		case "BindMain":
 			visit(ref.Bind.B)
-			if r, ok := m.rhsRoot[ref.Bind.B]; ok && r >= 0 {
+			if ref.Bind.Memo != nil {
+				// a memoized bind switches to a cached right-hand side without running the
+				// harness's function, so the current one is read off the bind's declared inputs
+				if ps := ref.Bind.Memo.Parents(); len(ps) == 2 {
+					if id, ok := m.E.byPtr[ps[1].Node()]; ok {
+						visit(id)
+					}
+				}
+			} else if r, ok := m.rhsRoot[ref.Bind.B]; ok && r >= 0 {
 				visit(r)
 			}
 		default:
@@ -586,7 +594,9 @@ func (e *Exec) Valid(op Op) bool {
 				return false
 			}
 		}
-	case "NewBind":
+	case "PurgeMemo", "ClearMemo":
+		return kind(op.A, "BindMain") && e.Nodes[op.A].Bind.Memo != nil
+	case "NewBind", "NewBindMemo":
 		if !user(op.A) || len(op.Cases) == 0 {
 			return false
 		}
